@@ -171,7 +171,17 @@ def expectations(nodes, regions):
         if n['kind'] == 'C':
             w = len(n['children'])
             active_bits += bits(w); resumable_bits += 1 + bits(w)
-    return {'STATE_COUNT': len(nodes), 'REGION_COUNT': len(regions), 'COMPO_COUNT': compo, 'ORTHO_COUNT': ortho,
+    def abits(i):
+        n = nodes[i]
+        if n['kind'] == 'L': return 0
+        if n['kind'] == 'C': return bits(len(n['children'])) + max(abits(c) for c in n['children'])
+        return sum(abits(c) for c in n['children'])
+    def rbits(i):
+        n = nodes[i]
+        if n['kind'] == 'L': return 0
+        return (bits(len(n['children'])) + 1 if n['kind'] == 'C' else 0) + sum(rbits(c) for c in n['children'])
+    serial = 1 + abits(0) + rbits(0)
+    return {'SERIAL_BITS': serial, 'SERIAL_BYTES': (serial + 7) // 8, 'STATE_COUNT': len(nodes), 'REGION_COUNT': len(regions), 'COMPO_COUNT': compo, 'ORTHO_COUNT': ortho,
             'COMPO_PRONGS': prongs, 'ORTHO_UNITS': ortho_units, 'widths': [len(n['children']) for n in nodes]}
 
 def shape_json(name, spec, cfg, inj=None):
